@@ -27,6 +27,8 @@ Conventions
   catalog is full keeps the T/S list sector it had already reserved in the VTOC buffer).
 * names are ASCII byte strings **without hex escapes** (no `\xHH`; the harness generates none):
   `string_to_file_name` is then upper-casing, setting bit 7, blank padding to 30.
+* two pieces exist as written and as repaired (`Repairs`, an argument of `put`/`writeFile`): the order of reserving
+  the T/S list sector and searching the directory slot, and the refusal of over-long chunks.
 * `init` is modelled for what the harness uses: 35 tracks, `last_track_written = 17`, not bootable (the boot
   tracks are not touched by a non-bootable `init`).
 
@@ -497,8 +499,38 @@ def putLoop (chunks : List (Nat Ã— Bytes)) (maxPairs endIdx : Nat) : List Nat â†
         { tsl := splice (zeros 256) 5 (u16le (sb % 65536)), tt := nt, tsec := ns, p := 0, secBase := sb }
     else putLoop chunks maxPairs endIdx rest { st with tsl := tsl1, p := p }
 
+/-- which of the proposed repairs the modelled source contains (the harness probes the real code and tells the driver,
+`fsd variant`, so that the byte-exact tie holds before and after a repair is applied); the default is the source as
+written at the pinned commit -/
+structure Repairs where
+  /-- `write_file` searches the directory slot and checks for an empty `fs_type` **before** it reserves the T/S list
+  sector (`proposed_fixes/dos-put-catalog-full-leak.diff`); as written it reserves first, and a refusal for a full
+  catalog or a missing type leaves that sector marked used -/
+  slotFirst : Bool := false
+  /-- `put` refuses a file image with a chunk longer than 256 bytes with RANGE ERROR
+  (`proposed_fixes/dos-put-oversize-chunk.diff`); as written `write_sector` silently drops the excess -/
+  chunkGuard : Bool := false
+  deriving Repr, Inhabited, DecidableEq
+
+/-- the source with both repairs -/
+def Repairs.repaired : Repairs := { slotFirst := true, chunkGuard := true }
+
+/-- the end of `write_file`: the directory entry, then the loop (the T/S list sector `(tt,tsec)` is reserved, the
+slot `(dt,ds,e)` found, `dir` is the directory sector, `ty` the type byte) -/
+def writeTail (f : FImg) (v : Bytes) (tt tsec dt ds e : Nat) (dir : Bytes) (ty : Nat) : M Nat := do
+  let dataSectors := f.chunks.length
+  let tslistSectors := 1 + (f.endIdx - 1) / Vtoc.maxPairs v
+  let fname â† M.lift (stringToFileName f.fullPath)
+  let dir1 := splice dir (entryOff e) [tt, tsec, ty]
+  let dir2 := splice dir1 (entryOff e + 3) fname
+  let dir3 := splice dir2 (entryOff e + 33) (u16le ((tslistSectors + dataSectors) % 65536))
+  writeSectorM dir3 dt ds
+  putLoop f.chunks (Vtoc.maxPairs v) f.endIdx (List.range f.endIdx)
+    { tsl := zeros 256, tt := tt, tsec := tsec, p := 0, secBase := 0 }
+  pure (dataSectors + tslistSectors)
+
 /-- `write_file` after the VTOC buffer is open -/
-def writeFile (f : FImg) : M Nat := do
+def writeFile (f : FImg) (rp : Repairs := {}) : M Nat := do
   let name := f.fullPath
   let v â† M.getV
   if f.chunks.length = 0 then M.fail .endOfData
@@ -510,29 +542,35 @@ def writeFile (f : FImg) : M Nat := do
     let free â† M.lift (numFree v)
     if dataSectors + tslistSectors > free then M.fail .diskFull
     let (tt, tsec) â† nextFreeM true
-    allocM tt tsec
-    updateLastTrackM tt
-    let (dt, ds, e) â† nextDirectorySlot
-    let dir â† readSectorM (zeros 256) dt ds
-    M.lift (fullSector dir)
-    match f.fsType with
-    | [] => M.fail .range
-    | ty :: _ =>
-      let fname â† M.lift (stringToFileName name)
-      let dir1 := splice dir (entryOff e) [tt, tsec, ty]
-      let dir2 := splice dir1 (entryOff e + 3) fname
-      let dir3 := splice dir2 (entryOff e + 33) (u16le ((tslistSectors + dataSectors) % 65536))
-      writeSectorM dir3 dt ds
-      putLoop f.chunks (Vtoc.maxPairs v) f.endIdx (List.range f.endIdx)
-        { tsl := zeros 256, tt := tt, tsec := tsec, p := 0, secBase := 0 }
-      pure (dataSectors + tslistSectors)
+    if rp.slotFirst then do
+      -- repaired: everything that can still refuse the file comes before the sector is reserved
+      let (dt, ds, e) â† nextDirectorySlot
+      match f.fsType with
+      | [] => M.fail .range
+      | ty :: _ =>
+        allocM tt tsec
+        updateLastTrackM tt
+        let dir â† readSectorM (zeros 256) dt ds
+        M.lift (fullSector dir)
+        writeTail f v tt tsec dt ds e dir ty
+    else do
+      -- as written: the sector is reserved first
+      allocM tt tsec
+      updateLastTrackM tt
+      let (dt, ds, e) â† nextDirectorySlot
+      let dir â† readSectorM (zeros 256) dt ds
+      M.lift (fullSector dir)
+      match f.fsType with
+      | [] => M.fail .range
+      | ty :: _ => writeTail f v tt tsec dt ds e dir ty
 
 /-- `put(fimg)` -/
-def put (d : Disk) (f : FImg) : R Nat Ã— Disk :=
+def put (d : Disk) (f : FImg) (rp : Repairs := {}) : R Nat Ã— Disk :=
   if !f.fsOk then (.error .ioError, d) else
   if f.chunkLen â‰  256 then (.error .range, d) else
+  if rp.chunkGuard && f.chunks.any (fun c => decide (c.2.length > 256)) then (.error .range, d) else
   if !isNameValid f.fullPath then (.error .syntaxError, d) else
-  d.run (writeFile f)
+  d.run (writeFile f rp)
 
 /-! ## `modify`: `lock`, `unlock`, `rename`, `retype` -/
 
